@@ -21,3 +21,9 @@ def run(ctx, res):
     m = builder.BuildModel(prog, res)
     builder.rules_typestate(prog, res, m)
     builder.rules_frame_shape(prog, res, m)
+    if ctx.tier == "thorough":
+        # the test-vector generator path shares the buffer discipline (default feature set only)
+        k1 = ctx.prog("K1")
+        m2 = builder.BuildModel(k1, res, path=builder.MB + "::build_generated_message")
+        builder.rules_typestate(k1, res, m2, tag="build_generated")
+        builder.rules_frame_shape(k1, res, m2, tag="build_generated")
